@@ -1,4 +1,5 @@
 import Fips204.Lemmas.SpecCodec
+import Fips204.Lemmas.SpecEncode
 import Fips204.Lemmas.KeyDecode
 import Fips204.Lemmas.SigDecode
 /-!
@@ -59,5 +60,37 @@ example (m : Mode) : bitLen m (top - 1 + top) = .ok 13 := bitLen_t0 m
 example : Spec.bitPack 3 2 (List.replicate 256 2) = List.replicate 96 0 := by decide +kernel
 example : Spec.bitPack 3 2 (List.replicate 256 (-2)) = (List.range 96).map (fun i => [36, 73, 146][i % 3]!) := by decide +kernel
 example : Spec.bitUnpack 3 2 (List.replicate 96 0) = List.replicate 256 2 := by decide +kernel
+
+
+/-! ### the hint codec and the signature codec are Algorithms 20, 21, 26, 27 as written -/
+
+theorem hint_bit_pack_is_HintBitPack (m : Mode) (omega : Int) (h : List Poly) (k : Nat) (ho : 0 ≤ omega) (hk : h.length = k)
+    (hok : 1 ≤ omega.toNat + k ∧ omega.toNat + k < 256) (hb : ∀ q ∈ h, Bin q) (hsum : onesAll h ≤ omega.toNat) :
+    hintBitPack m false omega h (omega.toNat + k) = .ok (Spec.hintBitPack omega.toNat h) :=
+  hintBitPack_is_algorithm_20 m omega h k ho hk hok hb hsum
+
+theorem hint_bit_unpack_is_HintBitUnpack' (m : Mode) (k : Nat) (omega : Int) (y : List Nat) (hy : ∀ b ∈ y, b < 256)
+    (ho : 0 ≤ omega) (hk : 1 ≤ omega.toNat + k ∧ omega.toNat + k < 256) (hlen : y.length = omega.toNat + k) :
+    hintBitUnpack m k omega y = .ok (Spec.hintBitUnpack omega.toNat k y) :=
+  hintBitUnpack_is_algorithm_21 m k omega y hy ho hk hlen
+
+theorem sig_encode_is_sigEncode (m : Mode) (p : ParamSet) (blz : Nat) (cfg : SigCfg p blz) (ct : List Nat) (z h : List Poly)
+    (hct : ct.length = p.lambdaDiv4) (hz : Sh p.l z) (hzr : ∀ q ∈ z, ∀ c ∈ q, -(p.gamma1 - 1) ≤ c ∧ c ≤ p.gamma1)
+    (hh : Sh p.k h) (hb : ∀ q ∈ h, Bin q) (hsum : onesAll h ≤ p.omega.toNat) :
+    sigEncode m false p ct z h = .ok (Spec.sigEncode blz p.gamma1 p.omega.toNat ct z h) :=
+  sigEncode_is_algorithm_26 m p blz cfg ct z h hct hz hzr hh hb hsum
+
+theorem sig_decode_is_sigDecode' (m : Mode) (p : ParamSet) (blz : Nat) (cfg : SigCfg p blz) (sigma : List Nat) (hb : ∀ x ∈ sigma, x < 256)
+    (hlen : sigma.length = p.sigLen) :
+    sigDecode m p sigma = .ok (
+      let d := Spec.sigDecode p.lambdaDiv4 p.l p.k p.omega.toNat blz p.gamma1 sigma
+      match d.2.2 with
+      | none => none
+      | some h => some (d.1, d.2.1, h)) :=
+  sigDecode_is_algorithm_27 m p blz cfg sigma hb hlen
+
+/-- the standard's `HintBitPack` on a concrete hint (a test, labelled as a test): k = 2, omega = 3, ones at h[0]_5 and h[1]_{0, 255} -/
+example : Spec.hintBitPack 3 [(List.replicate 256 0).set 5 1, ((List.replicate 256 0).set 0 1).set 255 1] = [5, 0, 255, 1, 3] := by decide +kernel
+example : Spec.hintBitUnpack 3 2 [5, 0, 255, 1, 3] = some [(List.replicate 256 0).set 5 1, ((List.replicate 256 0).set 0 1).set 255 1] := by decide +kernel
 
 end Fips204.Props.C08
